@@ -1,5 +1,8 @@
 use fqv::common::*;
 use fqv::scen_build;
+#[cfg(feature = "hooks")]
+use fqv::scen_hook;
+use serde_json::json;
 
 fn arg(args: &[String], name: &str, default: &str) -> String {
     args.iter().position(|a| a == name).and_then(|i| args.get(i + 1)).cloned().unwrap_or_else(|| default.to_string())
@@ -14,10 +17,36 @@ fn main() {
     let mut sink = Sink::new(&arg(&args, "--out", "-"));
     quiet_panics();
     match args[1].as_str() {
-        "cells" => {
-            let specs = scen_build::cells(seed, if thorough { 4 } else { 1 }, if thorough { 40 } else { 12 });
-            for s in &specs { sink.build(s); }
-        }
+        "cells" => for s in &scen_build::cells(seed, if thorough { 4 } else { 1 }, if thorough { 40 } else { 12 }) { sink.build(s); },
+        "formats" => for s in &scen_build::formats(seed, thorough) { sink.build(s); },
+        "thresholds" => for s in &scen_build::thresholds(seed, thorough) { sink.build(s); },
+        "maskgroups" => for s in &scen_build::maskgroups(seed, thorough) { sink.build(s); },
+        "modes" => for s in &scen_build::modes(seed, thorough) { sink.build(s); },
+        "total" => for s in &scen_build::total(seed, thorough) { sink.build(s); },
+        "corrupt" => for (s, errs) in &scen_build::corrupt_specs(seed, thorough) {
+            let o = run_build(s);
+            let id = sink.id();
+            let mut ev = build_event(id, s, &o);
+            ev["ev"] = json!("Corrupt");
+            ev["errors"] = json!(errs);
+            sink.emit(&ev);
+        },
+        #[cfg(feature = "hooks")]
+        "versionget" => scen_hook::versionget(&mut sink),
+        #[cfg(feature = "hooks")]
+        "encode" => scen_hook::encode(&mut sink, seed, thorough),
+        #[cfg(feature = "hooks")]
+        "rs" => scen_hook::rs(&mut sink, seed, thorough),
+        #[cfg(feature = "hooks")]
+        "tables" => scen_hook::tables(&mut sink),
+        #[cfg(feature = "hooks")]
+        "maskop" => scen_hook::maskop(&mut sink, seed, thorough),
+        #[cfg(feature = "hooks")]
+        "bestmode" => scen_hook::bestmode(&mut sink, seed, thorough),
+        #[cfg(feature = "hooks")]
+        "candidates" => scen_hook::candidates(&mut sink, seed, thorough),
+        #[cfg(feature = "hooks")]
+        "compact" => scen_hook::compact(&mut sink, seed, thorough),
         other => { eprintln!("unknown scenario {other}"); std::process::exit(2); }
     }
     use std::io::Write;
